@@ -3,7 +3,7 @@
    execute_error with the default_render_error fallback). *)
 From Coq Require Import List String Bool ZArith.
 Import ListNotations.
-From ClasticV Require Import Base.Py Base.Strs Gen.Tables Gen.NormPathGen Model.Dispatch Proofs.DispatchProofs.
+From ClasticV Require Import Gen.DispatchShape Base.Py Base.Strs Gen.Tables Gen.NormPathGen Model.Dispatch Proofs.DispatchProofs.
 Local Open Scope string_scope.
 Local Open Scope list_scope.
 
@@ -63,3 +63,40 @@ Example C08_example :
   serve HReraise RAdapt [mk_droute true None false SRewrite (XRaise "KeyError") RRaises] "GET" "/" = FEscape "KeyError" /\
   serve HDefault RRaises [] "GET" "/nope" = FErr 0 404 [] true.
 Proof. vm_compute. repeat split; reflexivity. Qed.
+
+(* obligation on the source: the control-flow skeletons of _dispatch_wsgi, match_path (conversion failures mean no match) and execute, regenerated from application.py / route.py on every run.
+   Model/Dispatch.v is a hand transcription of exactly these statements: any edit re-opens the correspondence question
+   (the check then searches for a failing request and reports what it finds) *)
+Theorem C08_request_path_shape :
+  SK_APPLICATION_DISPATCH_WSGI =
+  ["request = self.request_type(environ)";
+   "try";
+   "  request.request_id = next(_REQ_ID_ITER)";
+   "except Exception";
+   "  pass";
+   "else";
+   "  request.request_guid = int2hexguid(request.request_id)";
+   "try";
+   "  response = self.dispatch(request)";
+   "except RerouteWSGI as rre";
+   "  return rre.wsgi_app(environ, start_response)";
+   "return response(environ, start_response)"] /\
+  SK_BOUNDROUTE_MATCH_PATH =
+  ["ret = {}";
+   "match = self.regex.match(path)";
+   "if not match";
+   "  return None";
+   "groups = match.groupdict()";
+   "try";
+   "  for (conv_name, conv) in self.converters.items()";
+   "    ret[conv_name] = conv(groups[conv_name])";
+   "except (KeyError, TypeError, ValueError)";
+   "  return None";
+   "return ret"] /\
+  SK_BOUNDROUTE_EXECUTE =
+  ["injectables = {'_route': self, 'request': request, '_application': self.bound_apps[-1]}";
+   "injectables.update(self.resources)";
+   "injectables.update(kwargs)";
+   "return inject(self._execute, injectables)"].
+Proof. repeat split; reflexivity. Qed.
+Print Assumptions C08_request_path_shape.
